@@ -174,10 +174,20 @@ def one(ctx, rng, xr, ws, fmt, d):
             # one spectrum, unclipped
             sel = {k: int(rng.integers(ds.sizes[k])) for k in ("time", "site")}
             ds = ds.isel(sel, drop=True)
+            clip = False
             if rng.random() < 0.2:
                 ds = ds.spec.oned().to_dataset(name="efth")
+            elif rng.random() < 0.35:
+                # a spectrum that lies entirely in the half plane Funwave keeps (nautical 180..360, edges included): the
+                # default clip=True has nothing to clip and must write every bin
+                thv = ds.dir.values
+                keep = [float(v) for v in thv if 180.0 <= v <= 360.0]
+                if len(keep) >= 2 and 180.0 in keep:
+                    ds = ds.sel(dir=keep)
+                    clip = True
+                    key0 += "|clip-nothing-to-clip"
             path = os.path.join(d, "out.txt")
-            ds.spec.to_funwave(path, clip=False)
+            ds.spec.to_funwave(path, clip=clip) if not clip or rng.random() < 0.5 else ds.spec.to_funwave(path)
             back = ws.read_funwave(path)
             return funwave_cmp(rec, key0, ds, back)
     except Exception as e:
